@@ -10,7 +10,8 @@ EXTENDS MtEncoder, Json, IOUtils
 
 TraceLog == ndJsonDeserialize(IOEnv.TRACE)
 Cfg == TraceLog[1]
-TrNW == Cfg.nw
+TrNW == Cfg.nwmax
+TrNW0 == Cfg.nw
 TrBS == Cfg.bs
 TrTotal == Cfg.total
 TrTimeout == Cfg.timeout
@@ -63,7 +64,8 @@ TStop == IsEvent("Stop") /\ StopStep /\ m.loopI < m.nInit /\ Ev.w = m.loopI + 1 
 TStopDone == IsEvent("StopDone") /\ Ev.a = 0 /\ StopStep /\ m.loopI >= m.nInit
 \* re-initialisation: threads_stop(coder, true); its waiting loop has no hooks and is taken silently
 \* a = the block_size given to the constructor this time (0: the same as before)
-TAppReinit == IsEvent("AppReinit") /\ AppReinit(IF Ev.a = 0 THEN m.bs ELSE Ev.a)
+\* b = the thread count given this time (0: the same as before)
+TAppReinit == IsEvent("AppReinit") /\ AppReinit(IF Ev.a = 0 THEN m.bs ELSE Ev.a, IF Ev.b = 0 THEN m.nw ELSE Ev.b)
 TRStop == IsEvent("Stop") /\ RStop /\ m.loopI < m.nInit /\ Ev.w = m.loopI + 1 /\ Ev.nsig >= 1
 TRStopDone == IsEvent("StopDone") /\ Ev.a = 1 /\ RStop /\ m.loopI >= m.nInit
 TReinited == IsEvent("Reinited") /\ Ev.a = 0 /\ m.pc = "out" /\ m.given = 0 /\ m.seq = "HDR" /\ UNCHANGED vars
